@@ -684,6 +684,9 @@ impl World {
                         let mut names: Vec<String> = self.live_tags().map(|t| t.name.clone()).collect();
                         names.extend(self.branches.iter().filter(|b| b.alive).map(|b| b.name.clone()));
                         names.push("HEAD".into());
+                        // also the range spellings a caller may hand to git
+                        let ranges: Vec<String> = self.live_tags().map(|t| format!("{}..HEAD", t.name)).collect();
+                        names.extend(ranges);
                         let mut made = 0;
                         for n in names {
                             if n.contains('/') || n.len() > 200 || n == "." || n == ".." || d.join(&n).exists() {
